@@ -17,6 +17,9 @@ CLAIMED['C03'] = ('ir2c', 'bounded model checking (CBMC/SAT) of the clang IR of 
 CLAIMED['C02'] = ('cbmc-c+ir2c', 'bounded model checking (CBMC/SAT,SMT): miters between build configurations of half.h (C, C++14/17/20 IR, table, bit-shift, F16C-with-SDM-model) and the table generator, all 2^32 / 2^16 inputs',
     'Each configuration pair is one solver query (or 64 slices for the 65,536-entry shipped table) over every input bit pattern: table==bit-shift (via a common reference), generator toFloat.cpp::halfToFloat == bit-shift (loop unwound with unwinding assertion), C front end vs clang IR per language standard, table builds return entry h of an arbitrary installed table, F16C wiring under an SDM model of the two instructions.',
     'Trusted: CBMC, clang-14, vf/ll2c.py (validated each run), the SDM model of VCVTPH2PS/VCVTPS2PH in stubs/f16c. Real F16C silicon, MSVC/CUDA branches and the iostream printing of the generator (aux diff only) are outside.', '3/C02')
+CLAIMED['C18'] = ('ir2c', 'bounded model checking (CBMC with cvc5 bit-vectors-as-integers / kissat / z3) of the clang IR of ImathRandom.cpp and ImathRandom.h translated to C, from every generator state',
+    'nrand48/erand48/lrand48/drand48/srand48 against the POSIX formula from EVERY 48-bit state / 64-bit seed (one solver query each, no sampling); Rand32/Rand48 draws are pure functions of the state with the documented ranges for every state; sphere samplers: partial correctness of one rejection iteration from an arbitrary state. Sequences are covered by the one-step-from-arbitrary-state form.',
+    'Trusted: clang-14, vf/ll2c.py (validated each run), CBMC + cvc5 --solve-bv-as-int=sum for the multiply-by-constant kernels. POSIX reference is the formula of the standard written in the harness. gaussRand finiteness, hollow-sphere unit length and loop termination are outside.', '3/C18')
 NOT_YET = 'check not built yet in this working session (planned in DESIGN.md section 3); no claim is made'
 NA = {}
 
